@@ -43,6 +43,9 @@ func ParseRaceLog(text string) []RaceReport {
 			lines := strings.Split(head, "\n")
 			first := ""
 			top := ""
+			// the owner of an access is the first frame (from the top) that belongs to
+			// tacquito or to the harness: standard-library frames above it (reflect,
+			// fmt, maps, ...) only carry out the access on the owner's behalf
 			for _, l := range lines[1:] {
 				if !strings.HasPrefix(l, "  ") || strings.HasPrefix(l, "      ") {
 					continue
@@ -51,11 +54,13 @@ func ParseRaceLog(text string) []RaceReport {
 				if i := strings.LastIndex(fn, "("); i > 0 {
 					fn = fn[:i]
 				}
-				if top == "" {
-					top = fn
-				}
-				if first == "" && strings.HasPrefix(fn, modPrefix) {
+				if strings.HasPrefix(fn, modPrefix) {
 					first = strings.TrimPrefix(fn, modPrefix)
+					break
+				}
+				if strings.HasPrefix(fn, "verif/h/") {
+					top = fn
+					break
 				}
 			}
 			rr.Frames[idx] = first
